@@ -3,13 +3,13 @@ import jobs_c06 as _jobs_c06
 PROPS["C06"] = dict(
     functions=["revm::JournaledState::journal_revert (crates/revm/src/journaled_state.rs): ONE iteration of its loop over the entries (back edges cut), all ten entry kinds",
                "revm::JournaledState::{checkpoint, checkpoint_commit, checkpoint_revert (+ its per-vector closure)}: every path",
-               "revm::JournaledState::{touch_account, inc_nonce, set_code_with_hash, sstore, tstore}: every path (forward journalling); the two fallible operations transfer and "
+               "revm::JournaledState::{touch_account, inc_nonce, set_code_with_hash, sstore, tstore, selfdestruct}: every path (forward journalling); the two fallible operations transfer and "
                "create_account_checkpoint (nothing stays changed when they fail: the jobs of C08 / C21, run here too); selfdestruct value moves and load_account / sload warming are decided under C08, C34"],
     bounds="journal_revert: one entry of each of the 10 kinds x (was_destroyed, address != target, Spurious Dragon, address == the RIPEMD precompile, recorded transient value zero?) from an "
            "arbitrary state - an inductive step over the entry list, which is walked in reverse (checked); checkpoint functions: depth and lengths symbolic; forward functions: every path x "
            "(already touched?, nonce at maximum?, new value == present value?, previous transient value present / different?)",
     outside="the composition - that a sequence of per-entry undos in reverse order restores the whole state - is the induction the per-entry facts are meant for, it is not itself encoded; "
-            "JournaledState::selfdestruct's entry contents and log(); the std collections (Vec::truncate, iter_mut().rev().take(n), HashMap get_mut/insert/remove are events with std "
+            "log(); the std collections (Vec::truncate, iter_mut().rev().take(n), HashMap get_mut/insert/remove are events with std "
             "semantics); balances as numbers (add_assign / sub_assign of the recorded amount are events: that += then -= cancels is arithmetic, not decided here)",
     assumptions=["account / slot / transient-key identities are tags built from the entry's fields (ACC(address), SLOT(ACC(address), key), (address, key)); an undo must touch exactly the object the "
                  "entry names with exactly the value it recorded, and nothing else (every other event and store count is zero)",
@@ -24,8 +24,8 @@ PROPS["C06"] = dict(
           dict(name="e3::create_collision_guard", fn=__import__("jobs_c21").run_create_guard)],
 )
 CLAIMS["C06"] = dict(
-    text="The journal is decided link by link from MIR (provenance flow, z3+cvc5 over every path). Forward: touching an account, bumping a nonce, setting code, writing a storage slot and writing "
-         "a transient slot journal exactly one entry of the right kind, carrying the value that was there before (for sstore: the value just loaded, also when the slot was already dirty), "
+    text="The journal is decided link by link from MIR (provenance flow, z3+cvc5 over every path). Forward: touching an account, bumping a nonce, setting code, writing a storage slot, writing "
+         "a transient slot and self-destructing journal exactly one entry of the right kind, carrying the value that was there before (for sstore: the value just loaded, also when the slot was already dirty), "
          "before they change anything, and change and journal nothing on the paths that leave the state as it is (repeated touch, nonce at its maximum, same value). Backward: for each of the "
          "ten entry kinds one iteration of journal_revert touches exactly the account / slot / transient key the entry names, puts back exactly the recorded value or flag (or the inverse "
          "amount), and touches nothing else - in particular it does not change the warm/cold status of slots it has no entry for. Bookkeeping: a checkpoint remembers logs.len() and "
